@@ -17,7 +17,9 @@ RULE = ("single-scenario programs: ALL outcome sequences over {pass, fail, error
         "random longer sequences and two-run histories on the same Scenario object; non-trivial = at least one step does not pass")
 LEVEL_TEXT = ("Theorems over Runner.v's step loop for every step list and every loop state: calls are a subsequence (a prefix with the "
               "default class switch) of background ++ own steps, the status is the documented function of the outcome, nothing is "
-              "called after the first non-pass / after a scenario skip / in dry-run.  The model is compared with real runs "
+              "called after the first non-pass / after a scenario skip / in dry-run; for a whole run (RunnerOrder.v) the calls are, in run "
+              "order, one block per scenario / outline row, each on behalf of that scenario and a subsequence (prefix) of feature "
+              "background ++ rule background ++ own steps.  The model is compared with real runs "
               "on all outcome sequences up to a bound; an independent oracle replays the property text on the implementation's call log.")
 LEVEL_NOTE = "Trusted: Coq kernel, renderer/decoder. Re-run of one Scenario object is checked by oracle only (the model is stateless)."
 EXHAUSTIVE = True
